@@ -159,6 +159,16 @@ pub fn spec(id: &str) -> Option<HistorySpec> {
     }
 }
 
+/// Oracles used by the fuzz_history target: chosen by VERIF_FUZZ_ORACLE (c01 default, c03, c04, c10).
+pub fn fuzz_oracles() -> Oracles {
+    match std::env::var("VERIF_FUZZ_ORACLE").unwrap_or_default().as_str() {
+        "c03" => Oracles { snapshot: true, cursor: true, ..Default::default() },
+        "c04" => Oracles { cursor: true, ..Default::default() },
+        "c10" => Oracles { layout: true, ..Default::default() },
+        _ => Oracles { latest: true, ..Default::default() },
+    }
+}
+
 pub enum CaseOutcome {
     Pass(Stats),
     Fail(Failure, Stats),
